@@ -7,13 +7,18 @@ subprocess.run(["/venv/bin/python", "-m", "pytest", "-q", "-p", "no:cacheprovide
                 "--continue-on-collection-errors", "--junitxml=" + out], cwd="/repo", env=env,
                stdout=subprocess.DEVNULL, stderr=subprocess.DEVNULL)
 passed = set()
+why = {}
 for tc in ET.parse(out).getroot().iter("testcase"):
-    if not any(c.tag in ("failure", "error", "skipped") for c in tc):
-        passed.add("%s::%s" % (tc.get("classname"), tc.get("name")))
+    name = "%s::%s" % (tc.get("classname"), tc.get("name"))
+    bad = [c for c in tc if c.tag in ("failure", "error", "skipped")]
+    if not bad:
+        passed.add(name)
+    else:
+        why[name] = (bad[0].get("message") or "")[:300]
 os.remove(out)
 stable = set(json.load(open("/root/.vp/BASELINE.json"))["stable_pass"])
 missing = sorted(stable - passed)
 print("stable_pass: %d, passed now: %d, stable tests not passing now: %d" % (len(stable), len(passed), len(missing)))
 for m in missing[:40]:
-    print("  MISSING", m)
+    print("  MISSING", m, "--", why.get(m, "(not run)"))
 sys.exit(1 if missing else 0)
